@@ -366,3 +366,60 @@ def t_pathsyntax( ctx ):
     if len( emitted ) < 5:
         raise AnalysisError( 'format_path: emitted delimiters not recognised (%s)' % sorted( emitted ))
     return res
+
+
+@rule( 'P-FRESH', props=( 'C07', 'C12', 'C13' ), floor=3 )
+def p_fresh( ctx ):
+    """per-item results are fresh: every local yielded from inside a loop that is assigned in that loop is assigned on every path of the iteration before the yield (no value carried over from the previous reply/request)"""
+    res = Result( 'P-FRESH' )
+    src = ctx.src( CLIENT )
+    for qn in ( 'connector.collect', 'connector.harvest', 'connector.issue', 'connector.validate' ):
+        fn = src.get( qn )
+        cfg = CFG( fn )
+        for y in [ n for n in cfg.nodes if n.kind == 'stmt' and n.stmt is not None and isinstance( n.stmt, ast.Expr ) and isinstance( n.stmt.value, ast.Yield ) ]:
+            loop = src.enclosing( y.stmt, ( ast.For, ast.While ))
+            if loop is None:
+                continue
+            h = cfg.node_of( loop )
+            first = [ m for m, l in cfg.succ[h] if l == 'true' ]
+            if not first:
+                continue
+            yv = y.stmt.value.value
+            names = [ e.id for e in ( yv.elts if isinstance( yv, ast.Tuple ) else [ yv ] ) if isinstance( e, ast.Name ) ]
+            target_names = { t.id for t in ast.walk( loop.target ) if isinstance( t, ast.Name ) } if isinstance( loop, ast.For ) else set()
+            for v in names:
+                if v in target_names or ( qn, v ) in FRESH_EXEMPT:
+                    continue
+                assigns = [ n for n in cfg.nodes if n.stmt is not None and n.kind in ( 'stmt', 'for' ) and _assigns( n, v ) and _within( src, n.stmt, loop ) ]
+                if not assigns:
+                    continue			# loop-invariant (assigned before the loop only)
+                # every path head -> yield (within one iteration) passes an assignment of v
+                def edge_ok( a, b, label ):
+                    return label not in ( 'back', ) or b is not h
+                reach = cfg.reachable( first[0], avoid=set( assigns ), edge_ok=lambda a, b, l: not ( b is h ))
+                if y in reach and y not in assigns:
+                    res.bad( src, y.stmt, '%s yields %r' % ( qn, v ), 'on some path of a loop iteration %r is not assigned before the yield: the item is reported with the value left over from the previous one' % v, func=qn )
+                else:
+                    res.ok( src, y.stmt, '%s: %r is assigned on every path of the iteration before it is yielded' % ( qn, v ))
+    return res
+
+
+FRESH_EXEMPT = {
+    ( 'connector.issue', 'sender_context' ): 'deliberately loop-carried: derived from index at the end of each iteration for the next wire request',
+    ( 'connector.issue', 'index' ): 'deliberately loop-carried: the wire-request counter',
+}
+
+
+def _assigns( n, v ):
+    st = n.stmt
+    if n.kind == 'for' and isinstance( st, ast.For ):
+        return any( isinstance( t, ast.Name ) and t.id == v for t in ast.walk( st.target ))
+    if isinstance( st, ast.Assign ):
+        return any( isinstance( t, ast.Name ) and t.id == v for tg in st.targets for t in ast.walk( tg ) if isinstance( t, ast.Name ) and isinstance( t.ctx, ast.Store ))
+    if isinstance( st, ast.AugAssign ):
+        return False
+    return False
+
+
+def _within( src, node, loop ):
+    return any( a is loop for a in src.ancestors( node ))
